@@ -453,13 +453,23 @@ class Ext(Entity, extern=True, attributes={"path": "mylib"}):
 class Ext2(Entity, extern=True, attributes={"path": "otherlib"}):
     a = Port.input(Bit)
     y = Port.output(Bit)
+class Gen(Entity, attributes={"path": "iplib"}):
+    a = Port.input(Bit)
+    y = Port.output(Bit)
+    def architecture(self):
+        @std.concurrent
+        def logic():
+            self.y <<= ~self.a
 class T(Entity):
     a = Port.input(Bit)
     y = Port.output(Bit)
     z = Port.output(Bit)
+    w = Port.output(Bit)
     def architecture(self):
         Ext(a=self.a, y=self.y)
         Ext2(a=self.a, y=self.z)
+        # an entity of the design itself that is compiled into another library
+        Gen(a=self.a, y=self.w)
 ''',
     "match-duplicate-patterns": HDR + '''
 class T(Entity):
